@@ -1,6 +1,6 @@
 (** Check.v — correspondence: run the model on harness-recorded cases and
     return the list of mismatch tags (pure Gallina, evaluated by vm_compute). *)
-From Ergo Require Import Base Text Events Replay Ready Compact Path Cmd Input View.
+From Ergo Require Import Base Text Events Replay Ready Compact Path Cmd Input View Storage.
 Local Open Scope string_scope.
 Local Open Scope list_scope.
 
@@ -100,3 +100,16 @@ Definition check_logcase (c : logcase) : list string :=
 
 Definition run_logcases (cs : list logcase) : list (nat * string) :=
   concat (imap (λ i c, (λ t, (i, t)) <$> check_logcase c) cs).
+
+(** * Arbitrary file contents: readEvents over classified lines vs Go *)
+Inductive fileobs := FOk (evs : list event) | FBadLine (k : nat) | FTooLong | FOtherErr.
+Record filecase := FileCase { fc_lines : list line; fc_ends_nl : bool; fc_obs : fileobs }.
+Definition check_filecase (c : filecase) : list string :=
+  match read_lines (fc_lines c) (fc_ends_nl c), fc_obs c with
+  | Ok evs, FOk evs' => tag_if (negb (bool_decide (evs = evs'))) "ReadEvents"
+  | Err (RBadJSON k), FBadLine k' => tag_if (negb (Nat.eqb k k')) "ReadErrLine"
+  | Err RTooLong, FTooLong => []
+  | _, _ => ["ReadErr"]
+  end.
+Definition run_filecases (cs : list filecase) : list (nat * string) :=
+  concat (imap (λ i c, (λ t, (i, t)) <$> check_filecase c) cs).
